@@ -4,7 +4,7 @@
 # a scratch worktree of /repo gets the patch, a scratch copy of /verif runs ./check against it.
 set -u
 PROP=$1; PATCH=$(readlink -f "$2"); TIER=${3:-quick}
-EV=/root/work/seedeval; mkdir -p $EV
+EV=${SEEDEVAL_DIR:-/root/work/seedeval}; mkdir -p $EV
 rsync -a --delete --exclude .git --exclude replays --exclude evidence /verif/ $EV/verif/
 rm -rf $EV/repo; git -C /repo worktree prune; git -C /repo worktree add -q --detach $EV/repo HEAD
 if ! git -C $EV/repo apply "$PATCH"; then echo "SEEDEVAL: patch does not apply"; git -C /repo worktree remove --force $EV/repo; exit 3; fi
